@@ -282,14 +282,23 @@ fn pie_main(args: &[String]) {
       if let Err(f) = run_violation(&prog, &h, expect, prop, ob) { emit(&f, format!("pie-case --violation {}", ob), format!("program {:?} history {:?}", prog, h)); found += 1; }
     }
   }
-  if only_violation.is_none() {
+  if only_index.is_none() || gets("--determinism").is_some() {
+    for n in 3..=8usize {
+      if let Some(v) = gets("--determinism") { if v != n.to_string() { continue; } }
+      if only_violation.is_some() { continue; }
+      let (prog, h) = determinism_case(n); ran += 1;
+      if let Err(f) = run_determinism(&prog, &h, 6) { emit(&f, format!("pie-case --determinism {}", n), format!("program {:?} history {:?}", prog, h)); found += 1; break; }
+    }
+  }
+  if only_violation.is_none() && gets("--determinism").is_none() {
     let range = match only_index { Some(ix) => ix..ix + 1, None => 0..programs };
     for i in range {
       let mut rng = Rng((0x9E3779B97F4A7C15u64 ^ (seed as u64).wrapping_mul(0xD1342543DE82EF95) ^ (i as u64).wrapping_mul(0xA24BAED4963EE407)) | 1);
       for _ in 0..4 { rng.next(); }
-      let (prog, _w) = gen_program(&mut rng);
-      let h = gen_history(&mut rng, hist);
+      // every third case: a larger program under a history of bottom-up builds
+      let (prog, h) = if i % 3 == 2 { let n = 5 + rng.below(5); (gen_program_n(&mut rng, n).0, gen_bottom_up_history(&mut rng, 2 + hist / 4)) } else { (gen_program(&mut rng).0, gen_history(&mut rng, hist)) };
       ran += 1;
+      if i % 25 == 0 { if let Err(f) = run_determinism(&prog, &h.iter().filter(|a| !matches!(a, Act::PanicIn(..) | Act::TopDownFlaky(..) | Act::BottomUpFlaky)).cloned().collect::<Vec<_>>(), 2) { if f.prop == "C16" { emit(&f, format!("pie-case --seed {} --index {} --hist {}", seed, i, hist), format!("program {:?} history {:?}", prog, h)); found += 1; } } }
       if let Err(f) = run_case_attributed(&prog, &h) { emit(&f, format!("pie-case --seed {} --index {} --hist {}", seed, i, hist), format!("program {:?} history {:?}", prog, h)); found += 1; if found >= 5 { break; } }
     }
   }
